@@ -815,6 +815,10 @@ class HeapExec(DynExec):
             return loops._for_over(self, stmt, st, itr, key, lc)
         if isinstance(it, Rec) and it.kind == 'Token':
             it = self.getattr(it, 'tokens', st)
+        if isinstance(it, Opaque) and it.name == 'reversed':
+            if not (lc and lc.get('arbitrary')):
+                raise OutsideSubset('for over reversed(list) outside an arbitrary-element loop')
+            it = it.data        # an arbitrary element of reversed(L) is an arbitrary element of L
         if not isinstance(it, LRef):
             return NotImplemented
         items = st.lists[it.lid]
